@@ -10,7 +10,7 @@ from .. import templates as T
 from ..core import AnalysisError, FuncInfo, Repo, unparse
 from ..prov import callee_name
 from ..report import Finding, RuleResult
-from . import c01, c05, c14, c16
+from . import c01, c05, c07, c08, c14, c16
 
 TP = "lisp_parsers.trajectory_parser"
 
@@ -127,7 +127,7 @@ def rule_siblings(repo: Repo) -> RuleResult:
         r.ok({"atoms": "arity check; mapping = zip(arguments, declared parameters)"})
     else:
         r.fail(Finding("C10.siblings", a, "atom-reader", "the trajectory atom reader lacks the arity check or does not zip arguments with the declared parameters in order"))
-    r.require_sites(4)
+    r.require_sites(3)
     return r
 
 
@@ -264,6 +264,7 @@ def rules(repo: Repo, tier: str) -> List[RuleResult]:
         c05.rule_value(repo, "C10.value", "TrajectoryParser.parse_state", "state_fluents"),
         c16.rule_export(repo, "C10.export", "TrajectoryExporter", "operator:"),
         rule_call(repo),
-        c14.rule_serialize(repo, "C10.fields"),
+        c14.rule_serialize(repo, "C10.fields"), c08.rule_valuetext(repo, "C10.valuetext"),
         c01.rule_dupkeys(repo, "C10.dupkeys", ["TrajectoryParser.parse_grounded_numeric_fluent"]),
+        c07.rule_global(repo, "C10.global"),
     ]
